@@ -194,5 +194,6 @@ Proof.
   - now apply sim_ppc64.
   - now rewrite Hfmt.
   - now rewrite Hfmt.
+  - rewrite Hfmt, Hform. cbn. lia.
   - rewrite Hform; wf_by_compute.
 Qed.
